@@ -303,6 +303,9 @@ func genScalarBytes(t *rapid.T) []byte {
 	case 2:
 		return make([]byte, rapid.IntRange(0, 40).Draw(t, "zeros"))
 	case 3:
+		if rapid.Bool().Draw(t, "verylong") {
+			return rapid.SliceOfN(rapid.Byte(), 64, 100).Draw(t, "verylong64")
+		}
 		return rapid.SliceOfN(rapid.Byte(), 33, 48).Draw(t, "long")
 	}
 	return rapid.SliceOfN(rapid.Byte(), 0, 8).Draw(t, "short")
